@@ -133,6 +133,16 @@ class TableMonitor:
         now = set(ids)
         for oid in list(seen):
             if oid not in now:
+                if oid not in gone:
+                    x = seen[oid]
+                    st = x.state.name
+                    # an IKE_SA leaves the table because it ended (state DELETED); the only other legitimate case is an object that never
+                    # sent or received anything (an ACQUIRE that matched no policy)
+                    if st != 'DELETED' and not (st == 'INITIAL' and x.request is None) and (ep.name, 'alive') not in self.flagged:
+                        self.flagged.add((ep.name, 'alive'))
+                        ck.violation(f'ike-sa-removed-from-the-table-while-alive:{st}@{ctx_of(rec)}', {'trace': sim.trace[-10:]}, getattr(sim, 'case', None))
+                    else:
+                        ck.count('table.removals_of_ended_ike_sas')
                 gone.add(oid)
         # successor registered exactly once while its predecessor is in a rekeyed state
         for x in table:
